@@ -36,7 +36,8 @@ Record ctx := {
   loops : list val;         (* ForLoop objects of the active for tags, innermost first *)
   disabled : list str;
   copy_depth : Z;
-  tname : str
+  tname : str;
+  dlimit : Z               (* env.context_depth_limit, read by extend() *)
 }.
 
 Record buf := { text : str; null : bool }.
@@ -59,39 +60,39 @@ Definition write (b : buf) (s : str) : buf :=
 Definition set_scopes (c : ctx) (s : list ns) : ctx :=
   {| scopes := s; locals := locals c; globals := globals c; root_globals := root_globals c;
      counters := counters c; cycles := cycles c; stopindex := stopindex c; macros := macros c;
-     loops := loops c; disabled := disabled c; copy_depth := copy_depth c; tname := tname c |}.
+     loops := loops c; disabled := disabled c; copy_depth := copy_depth c; tname := tname c; dlimit := dlimit c |}.
 Definition set_locals (c : ctx) (l : ns) : ctx :=
   {| scopes := scopes c; locals := l; globals := globals c; root_globals := root_globals c;
      counters := counters c; cycles := cycles c; stopindex := stopindex c; macros := macros c;
-     loops := loops c; disabled := disabled c; copy_depth := copy_depth c; tname := tname c |}.
+     loops := loops c; disabled := disabled c; copy_depth := copy_depth c; tname := tname c; dlimit := dlimit c |}.
 Definition set_globals (c : ctx) (g : list ns) : ctx :=
   {| scopes := scopes c; locals := locals c; globals := g; root_globals := root_globals c;
      counters := counters c; cycles := cycles c; stopindex := stopindex c; macros := macros c;
-     loops := loops c; disabled := disabled c; copy_depth := copy_depth c; tname := tname c |}.
+     loops := loops c; disabled := disabled c; copy_depth := copy_depth c; tname := tname c; dlimit := dlimit c |}.
 Definition set_counters (c : ctx) (x : list (str * Z)) : ctx :=
   {| scopes := scopes c; locals := locals c; globals := globals c; root_globals := root_globals c;
      counters := x; cycles := cycles c; stopindex := stopindex c; macros := macros c;
-     loops := loops c; disabled := disabled c; copy_depth := copy_depth c; tname := tname c |}.
+     loops := loops c; disabled := disabled c; copy_depth := copy_depth c; tname := tname c; dlimit := dlimit c |}.
 Definition set_cycles (c : ctx) (x : list (str * Z)) : ctx :=
   {| scopes := scopes c; locals := locals c; globals := globals c; root_globals := root_globals c;
      counters := counters c; cycles := x; stopindex := stopindex c; macros := macros c;
-     loops := loops c; disabled := disabled c; copy_depth := copy_depth c; tname := tname c |}.
+     loops := loops c; disabled := disabled c; copy_depth := copy_depth c; tname := tname c; dlimit := dlimit c |}.
 Definition set_stopindex (c : ctx) (x : list (str * Z)) : ctx :=
   {| scopes := scopes c; locals := locals c; globals := globals c; root_globals := root_globals c;
      counters := counters c; cycles := cycles c; stopindex := x; macros := macros c;
-     loops := loops c; disabled := disabled c; copy_depth := copy_depth c; tname := tname c |}.
+     loops := loops c; disabled := disabled c; copy_depth := copy_depth c; tname := tname c; dlimit := dlimit c |}.
 Definition set_macros (c : ctx) (x : list (str * macro)) : ctx :=
   {| scopes := scopes c; locals := locals c; globals := globals c; root_globals := root_globals c;
      counters := counters c; cycles := cycles c; stopindex := stopindex c; macros := x;
-     loops := loops c; disabled := disabled c; copy_depth := copy_depth c; tname := tname c |}.
+     loops := loops c; disabled := disabled c; copy_depth := copy_depth c; tname := tname c; dlimit := dlimit c |}.
 Definition set_loops (c : ctx) (x : list val) : ctx :=
   {| scopes := scopes c; locals := locals c; globals := globals c; root_globals := root_globals c;
      counters := counters c; cycles := cycles c; stopindex := stopindex c; macros := macros c;
-     loops := x; disabled := disabled c; copy_depth := copy_depth c; tname := tname c |}.
+     loops := x; disabled := disabled c; copy_depth := copy_depth c; tname := tname c; dlimit := dlimit c |}.
 Definition set_tname (c : ctx) (x : str) : ctx :=
   {| scopes := scopes c; locals := locals c; globals := globals c; root_globals := root_globals c;
      counters := counters c; cycles := cycles c; stopindex := stopindex c; macros := macros c;
-     loops := loops c; disabled := disabled c; copy_depth := copy_depth c; tname := x |}.
+     loops := loops c; disabled := disabled c; copy_depth := copy_depth c; tname := x; dlimit := dlimit c |}.
 
 Fixpoint chain_lookup (k : str) (layers : list ns) : option val :=
   match layers with
@@ -131,7 +132,7 @@ Definition copy_isolated (g : cfg) (c : ctx) (n : ns) (dis : list str) (tn : str
   else Some {| scopes := []; locals := []; globals := n :: root_globals c;
                root_globals := root_globals c; counters := []; cycles := [];
                stopindex := []; macros := []; loops := []; disabled := dis;
-               copy_depth := copy_depth c + 1; tname := tn |}.
+               copy_depth := copy_depth c + 1; tname := tn; dlimit := dlimit c |}.
 
 (** * Filters of the fragment *)
 
@@ -401,6 +402,34 @@ Fixpoint walk (obj : val) (keys : list val) : eres :=
       end
   end.
 
+(** What each lambda-aware filter makes of the items and the values of the
+    arrow function on them (map_filter.py, filtering_filters.py, find_filters.py). *)
+Definition lam_true (rv : val) : bool :=
+  match rv with VUndef => false | _ => is_truthy rv end.
+
+Fixpoint lam_select (keep : bool) (items rvs : list val) : list val :=
+  match items, rvs with
+  | it :: items', rv :: rvs' =>
+      if Bool.eqb (lam_true rv) keep then it :: lam_select keep items' rvs' else lam_select keep items' rvs'
+  | _, _ => []
+  end.
+
+Fixpoint lam_find (items rvs : list val) (i : Z) : option (val * Z) :=
+  match items, rvs with
+  | it :: items', rv :: rvs' => if lam_true rv then Some (it, i) else lam_find items' rvs' (i + 1)%Z
+  | _, _ => None
+  end.
+
+Definition lambda_result (lf : lfname) (items rvs : list val) : eres :=
+  match lf with
+  | LMap => EOk (VList (map (fun rv => match rv with VUndef => VNil | _ => rv end) rvs))
+  | LWhere => EOk (VList (lam_select true items rvs))
+  | LReject => EOk (VList (lam_select false items rvs))
+  | LFind => EOk (match lam_find items rvs 0 with Some (it, _) => it | None => VNil end)
+  | LFindIndex => EOk (match lam_find items rvs 0 with Some (_, i) => VInt i | None => VNil end)
+  | LHas => EOk (VBool (match lam_find items rvs 0 with Some _ => true | None => false end))
+  end.
+
 (** One step of expression evaluation, parameterised by the recursive call. *)
 Section EvalStep.
 Variable ev : ctx -> expr -> eres.
@@ -428,6 +457,18 @@ Fixpoint eval_segs (c : ctx) (l : list seg) : eres + list val :=
       match r with
       | EOk v => match eval_segs c l' with inr vs => inr (v :: vs) | inl r' => inl r' end
       | r' => inl r'
+      end
+  end.
+
+(** the items of LambdaExpression.map, evaluated eagerly up to the first failure *)
+Fixpoint lambda_map (c : ctx) (param : str) (body : expr) (items : list val) : eres + list val :=
+  match items with
+  | [] => inr []
+  | it :: items' =>
+      match ev (set_scopes c ([(param, it)] :: scopes c)) body with
+      | EOk rv =>
+          match lambda_map c param body items' with inr rs => inr (rv :: rs) | inl r => inl r end
+      | r => inl r
       end
   end.
 
@@ -503,6 +544,28 @@ Definition eval_step (c : ctx) (e : expr) : eres :=
       | EOk cv =>
           if is_truthy cv then ev c a
           else match alt with Some b => ev c b | None => EOk VNil end
+      | r => r
+      end
+  | EFilterL a lf param body =>
+      (* a filter given a one-parameter arrow function: LambdaExpression.map
+         extends the context with a scope that binds the parameter to each item
+         in turn; the scope is popped when the filter has finished with the
+         generator (also when it stops early or the body raises) *)
+      match ev c a with
+      | EOk v =>
+          match sequence_arg v with
+          | None => EUnm
+          | Some items =>
+              (* the generator body runs up to its `with context.extend(scope)` even
+                 for an empty sequence (zip(strict=True) / the comprehension asks it
+                 for an item) *)
+              if (dlimit c <? scope_size c)%Z then EErr ContextDepthError
+              else
+                match lambda_map c param body items with
+                | inr rvs => lambda_result lf items rvs
+                | inl r => r
+                end
+          end
       | r => r
       end
   end.
@@ -1012,16 +1075,16 @@ Fixpoint render (g : cfg) (ld : loader) (fuel : nat) (n : node) (c : ctx) (b : b
 
 (** Template.render(): a fresh context over the given globals; the template's
     nodes are rendered by render_with_context(partial=False). *)
-Definition fresh_ctx (glob : list ns) (name : str) : ctx :=
+Definition fresh_ctx (dl : Z) (glob : list ns) (name : str) : ctx :=
   {| scopes := []; locals := []; globals := glob; root_globals := glob; counters := [];
      cycles := []; stopindex := []; macros := []; loops := []; disabled := [];
-     copy_depth := 0; tname := name |}.
+     copy_depth := 0; tname := name; dlimit := dl |}.
 
 Definition empty_buf : buf := {| text := []; null := false |}.
 
 Definition render_template (g : cfg) (ld : loader) (fuel : nat) (body : list node)
   (glob : list ns) (name : str) : rstate :=
-  let c := fresh_ctx glob name in
+  let c := fresh_ctx (depth_limit g) glob name in
   match extend g c [] with
   | None => mk (SErr ContextDepthError) c empty_buf
   | Some c1 =>
